@@ -466,7 +466,7 @@ class BPInfo:
 
         self.cls = cls
         mod = sys.modules[cls.__module__]
-        self.hints = typing.get_type_hints(cls, vars(mod))
+        self.hints = typing.get_type_hints(cls, vars(mod), {})
         self.by_number: Dict[int, tuple] = {}
         self.fields = []
         for f in dataclasses.fields(cls):
